@@ -109,14 +109,14 @@ IsSubsequent(c) == IsInitial(c) \/ IsDigit(c) \/ c \in {43, 45, 46, 64}
 IsSignSubsequent(c) == IsInitial(c) \/ IsSign(c) \/ c = 64
 IsDotSubsequent(c) == IsSignSubsequent(c) \/ c = 46
 AllSubsequent(s, i) == \A j \in i..Len(s) : IsSubsequent(s[j])
-IsIdentifier(s) ==
+IsIdentifierNN(s) ==            \* for s that is not a number
   /\ Len(s) >= 1
-  /\ ~IsNumber(s)                                              \* +i, -i, <infnan> are numbers
   /\ \/ IsInitial(s[1]) /\ AllSubsequent(s, 2)
      \/ Len(s) = 1 /\ IsSign(s[1])
      \/ IsSign(s[1]) /\ Len(s) >= 2 /\ IsSignSubsequent(s[2]) /\ AllSubsequent(s, 3)
      \/ IsSign(s[1]) /\ Len(s) >= 3 /\ s[2] = 46 /\ IsDotSubsequent(s[3]) /\ AllSubsequent(s, 4)
      \/ s[1] = 46 /\ Len(s) >= 2 /\ IsDotSubsequent(s[2]) /\ AllSubsequent(s, 3)
+IsIdentifier(s) == ~IsNumber(s) /\ IsIdentifierNN(s)            \* +i, -i, <infnan> are numbers
 
 \* ------------------------------------------------------------------ escapes in "..." and |...|
 \* scanning state after each character: 0 plain, 1 after a backslash, 2 a bare terminator was met
@@ -180,11 +180,19 @@ TokOK(tk) ==
 \* a token that is not self-delimiting must be followed by white space, a closing parenthesis or the end
 NeedsDelim == {"atom", "lref", "dot", "str", "psym"}
 Flat(toks) == LET f[i \in 0..Len(toks)] == IF i = 0 THEN <<>> ELSE f[i - 1] \o toks[i].s IN f[Len(toks)]
-LexOK(toks, text) ==
+\* every token carries its offset o in the text: the tokens tile the text (same as Flat(toks) = text, in linear time)
+Tiles(toks, text) ==
+  /\ (Len(toks) = 0) = (Len(text) = 0)
+  /\ Len(toks) > 0 => toks[1].o = 1 /\ toks[Len(toks)].o + Len(toks[Len(toks)].s) - 1 = Len(text)
+  /\ \A i \in 1..(Len(toks) - 1) : toks[i + 1].o = toks[i].o + Len(toks[i].s)
+  /\ \A i \in 1..Len(toks) : Len(toks[i].s) >= 1 /\ SubSeq(text, toks[i].o, toks[i].o + Len(toks[i].s) - 1) = toks[i].s
+LexOKBy(toks, text, tiling) ==
   /\ \A i \in 1..Len(toks) : toks[i].t \in TokTypes /\ TokOK(toks[i])
   /\ \A i \in 1..(Len(toks) - 1) : toks[i].t \in NeedsDelim => toks[i + 1].t \in {"ws", "close"}
   /\ \A i \in 1..(Len(toks) - 1) : toks[i].t = "ws" => toks[i + 1].t # "ws"
-  /\ Flat(toks) = text
+  /\ tiling
+LexOK(toks, text) == LexOKBy(toks, text, Flat(toks) = text)
+LexOKo(toks, text) == LexOKBy(toks, text, Tiles(toks, text))
 
 \* ------------------------------------------------------------------ atoms
 CharNames == << <<<<97, 108, 97, 114, 109>>, 7>>, <<<<98, 97, 99, 107, 115, 112, 97, 99, 101>>, 8>>,
@@ -215,8 +223,7 @@ AtomNodes(tk) ==
      ELSE IF Len(s) >= 3 /\ Lower(s[2]) = 120 /\ AllDigits(Sub(s, 3, Len(s)), 16) THEN      \* #xHH
         <<Node("int", <<>>, IntPayload(FALSE, Magnitude(Sub(s, 3, Len(s)), 16)))>>
      ELSE <<Bad>>
-  ELSE IF IsNumber(s) /\ ~IsNumberLC(s) THEN <<Node("odd", <<>>, s)>>   \* a number only if case is ignored (+I, +Inf.0): not judged
-  ELSE IF IsNumber(s) THEN
+  ELSE IF IsNumberLC(s) THEN
      LET neg == s[1] = 45
          b == IF IsSign(s[1]) THEN Sub(s, 2, Len(s)) ELSE s
          sl == {j \in 1..Len(b) : b[j] = 47}
@@ -227,7 +234,8 @@ AtomNodes(tk) ==
                 Node("int", <<>>, IntPayload(FALSE, Magnitude(Sub(b, j + 1, Len(b)), 10))),
                 Node("rat", <<1, 2>>, <<>>) >>
         ELSE <<Node("num", <<>>, LowerSeq(s))>>
-  ELSE IF IsIdentifier(s) THEN <<Node("sym", <<>>, s)>>
+  ELSE IF IsNumber(s) THEN <<Node("odd", <<>>, s)>>   \* a number only if case is ignored (+I, +Inf.0): not judged
+  ELSE IF IsIdentifierNN(s) THEN <<Node("sym", <<>>, s)>>
   ELSE <<Node("odd", <<>>, s)>>          \* neither an R7RS number nor an R7RS identifier: not judged
 
 \* ------------------------------------------------------------------ the reader
